@@ -81,6 +81,9 @@ class ServeManifest(RequestHandlerBase):
         except ValueError as e:
             logging.info('Invalid CGI parameters: %s', e)
             return flask.make_response('Invalid CGI parameters', 400)
+        if current_stream.timing_reference is None:
+            return flask.make_response(
+                'stream.timing_reference has not been configured', 404)
         if mode != 'live':
             # Patch elements are ignored if MPD@type == 'static'
             options.update(patch=False)
